@@ -443,6 +443,15 @@ func (w *Writer) WriteDataEnd(e *DataEnd) error {
 
 // WriteChunkWithIndexes writes a chunk record with the associated message indexes to the output.
 func (w *Writer) WriteChunkWithIndexes(c *Chunk, messageIndexes []*MessageIndex) error {
+	return w.writeChunkWithIndexes(c, messageIndexes, true)
+}
+
+// writeChunkWithIndexes implements WriteChunkWithIndexes. updateTimeRange says whether the
+// statistics' message time range should be widened by the chunk's: that is wanted for chunks
+// supplied by the caller, but not for chunks assembled from WriteMessage calls, whose log times
+// have been accounted for exactly, message by message (a chunk header cannot tell "no messages"
+// from "messages at time 0", so the chunk-level update cannot be exact).
+func (w *Writer) writeChunkWithIndexes(c *Chunk, messageIndexes []*MessageIndex, updateTimeRange bool) error {
 	if c.UncompressedSize == 0 {
 		return nil
 	}
@@ -512,6 +521,9 @@ func (w *Writer) WriteChunkWithIndexes(c *Chunk, messageIndexes []*MessageIndex)
 
 	w.Statistics.ChunkCount++
 
+	if !updateTimeRange {
+		return nil
+	}
 	if w.Statistics.MessageStartTime == 0 || c.MessageStartTime < w.Statistics.MessageStartTime {
 		w.Statistics.MessageStartTime = c.MessageStartTime
 	}
@@ -563,7 +575,7 @@ func (w *Writer) flushActiveChunk() error {
 		}
 	}
 
-	err = w.WriteChunkWithIndexes(&chunk, messageIndexes)
+	err = w.writeChunkWithIndexes(&chunk, messageIndexes, false)
 	if err != nil {
 		return err
 	}
